@@ -237,6 +237,7 @@ pub fn scenarios(prop: &str, tier: Tier) -> Vec<Box<dyn Scenario>> {
                 c("mapref_fold", vec![PVar, Fst(0), Var, Fold(vec![1, 2, 1])], vec![3], l),
             ]
         }
+        "C20" => vec![Box::new(crate::c20::Memo { len: if q { 6 } else { 8 }, recursive: false }), Box::new(crate::c20::Memo { len: if q { 6 } else { 8 }, recursive: true })],
         "C19" => vec![Box::new(crate::c19::HeightLimit { max_n: if q { 6 } else { 10 } }), Box::new(crate::c19::Misuse)],
         "C13" => {
             use Spec::*;
@@ -391,6 +392,15 @@ pub fn meta(prop: &str, tier: Tier) -> PropMeta {
             assumptions: common_assume,
             rule: "as C01",
             must_cover: vec!["state-dropped-before-handles", "leak-check-after-stabilise"],
+        },
+        "C20" => PropMeta {
+            level: "other",
+            functions: vec!["incremental::IncrState::{weak_memoize_fn, add_weak_map, within_scope, current_scope}", "WeakHashMap garbage_collect in State::stabilise_end", "Incr::weak / WeakIncr::{upgrade, strong_count}", "bind (Node::recompute_one BindLhsChange, invalidate_nodes_created_on_rhs), Scope"],
+            bounds: format!("memoised function k -> var_k.map(f_k) over 3 keys (and a recursive variant k -> memo(k-1).map2(var_k)); every history of {} actions from {{call from top level (key 0..2), drop a held node, observe a held node, drop that observer, write a var, create a bind whose closure calls the memoised function with key chosen by an uninterpreted predicate of its lhs, write the bind's lhs, observe / unobserve / drop the bind, keep the node the closure obtained, stabilise}}. Oracle: WeakIncr::strong_count of the node last returned for a key decides whether the next call must return that very node without running the function, or must run it", if q { 6 } else { 8 }),
+            outside: vec!["more than 3 keys, hash collisions of user key types, WeakSlotMap (feature slotmap)"],
+            assumptions: common_assume,
+            rule: "as C01",
+            must_cover: vec!["memoised-call-while-node-alive", "memoised-call-after-node-released", "memoised-call-inside-bind-closure", "node-from-closure-kept", "bind-dropped"],
         },
         "C19" => PropMeta {
             level: "other",
